@@ -108,11 +108,11 @@ def dbUpdate (env : Env) (db : Db) (ctx : Ctx) (body : List Step) : TxOut :=
 /-- DbImpl.Batch (one caller): a failing function is rolled back and run again alone; the context
     keeps whatever the first run registered on it -/
 def dbBatch (env : Env) (db : Db) (ctx : Ctx) (body : List Step) : TxOut :=
-  let a := attempt env false db ctx body
+  let a := attempt env true db ctx body
   match a.res with
   | .ok => commit env a 1 [] [] []
   | .err _ =>
-    let b := attempt env false db a.st.ctx body
+    let b := attempt env true db a.st.ctx body
     match b.res with
     | .ok => commit env b 2 a.st.preLog a.preRan a.st.raised
     | .err e => rollback db b e 2 a.st.preLog a.preRan a.st.raised
